@@ -18,6 +18,8 @@ inductive Effect where
   | setattr (target : Dotted) (attr : Name) (tag : Str)
   /-- replace `sys.modules[target]` (if present) by a fresh module object tagged `tag` with the same `__path__` -/
   | sysmod (target : Dotted) (tag : Str)
+  /-- `m = sys.modules.get(src); if m is not None: <attr> = m` — a member that IS a registered module -/
+  | alias (attr : Name) (src : Dotted)
 deriving Repr
 
 structure ModSpec where
@@ -96,20 +98,24 @@ def runMembers (w : PyW) (path : Dotted) (o : Obj) : List Name → PyW
     let a := w.alloc (.tagged (joinDot (path ++ [m])) false)
     runMembers (a.2.setattr o m a.1) path o ms
 
-def runEffects (w : PyW) : List Effect → PyW
+def runEffects (w : PyW) (self : Obj) : List Effect → PyW
   | [] => w
   | .setattr target attr tag :: es =>
     match w.modOf target with
-    | none => runEffects w es
+    | none => runEffects w self es
     | some t =>
       let a := w.alloc (.tagged tag false)
-      runEffects (a.2.setattr t attr a.1) es
+      runEffects (a.2.setattr t attr a.1) self es
   | .sysmod target tag :: es =>
     match w.modOf target with
-    | none => runEffects w es
+    | none => runEffects w self es
     | some t =>
       let a := w.alloc (.tagged tag (w.isPkg t))
-      runEffects (a.2.setMod target a.1) es
+      runEffects (a.2.setMod target a.1) self es
+  | .alias attr src :: es =>
+    match w.modOf src with
+    | none => runEffects w self es
+    | some m => runEffects (w.setattr self attr m) self es
 
 /-- `_find_and_load_unlocked(name)` for a name that is not in sys.modules and whose parent is.
     `true` = loaded. -/
@@ -129,7 +135,7 @@ def loadOne (w : PyW) (path : Dotted) : Bool × PyW :=
       if s.raises == .early then (false, w.delMod path)
       else
         let w := runMembers w path o s.members
-        let w := runEffects w s.effects
+        let w := runEffects w o s.effects
         if s.raises == .late then (false, w.delMod path)
         else
           -- `module = sys.modules[name]`; `parent_module = sys.modules[parent]` is fetched AGAIN after the
